@@ -351,9 +351,11 @@ def ill_conditioned(e, leafval):
     try:
         with np.errstate(all="ignore"):
             base = eval_expr(e, leafval)
-            for f in (1 + 2.0 ** -50, 1 - 2.0 ** -50):
-                # every leaf and every intermediate result rounded the other way by a few ulp
-                v = eval_expr(e, lambda i, f=f: np.asarray(leafval(i)) * f, jitter=f)
+            up, dn = 1 + 2.0 ** -50, 1 - 2.0 ** -50
+            for fl, fn in ((up, up), (dn, dn), (up, dn), (dn, up), (1.0, up), (1.0, dn)):
+                # every leaf (fl) and every intermediate result (fn) moved by a few ulp, together and against each other
+                # (moved together, the shifts cancel in a quotient)
+                v = eval_expr(e, lambda i, fl=fl: np.asarray(leafval(i)) * fl, jitter=fn)
                 if np.iscomplexobj(v) or not np.all(np.isfinite(np.asarray(v, dtype=float))) or not _close(v, base):
                     return True
     except Exception:
@@ -442,6 +444,11 @@ def run_alg(case):
     try:
         with np.errstate(all="ignore"):
             got_g = d.guess
+    except ValueError as ex:
+        if "negative integer powers" in str(ex):
+            # numpy's own rule for integer operands (an integer guess summed by np.add, then raised to a negative integer)
+            return Outcome(None, False, labels + ["domain_error"], skipped=True)
+        raise
     except TypeError as ex:
         if "ufunc" in str(ex) and "type int" in str(ex):
             # numpy's own rule: a python integer beyond int64 (an integer guess to the 41st power) is not accepted by ufuncs
